@@ -2,11 +2,13 @@
    streams of the virtual process drains everything.  Per-module lemmas, then
    the theorems over histories of whole operations (any module, any
    configuration, any streams). *)
-From Coq Require Import ZArith List Bool Arith Lia Permutation.
+From Coq Require Import ZArith List Bool Arith Lia Permutation Morphisms.
 From PV Require Import Sched.SchedDefs Sched.SchedPerm Sched.SchedContProofs.
 Import ListNotations.
 
 Definition ids (l : list task) : list Z := map tid l.
+Global Instance ids_proper : Proper (@Permutation task ==> @Permutation Z) ids.
+Proof. intros a b H. apply Permutation_map, H. Qed.
 
 (* every buffer of the VP is some stream's task queue or one of its steal targets *)
 Definition wf (c : config) : Prop :=
